@@ -29,7 +29,7 @@ RULE = (
     "multi-unit, > remaining, -1}, readinto, peek, readoffset, readall, tell, read_sectors, re-reading an earlier range, "
     "and a 'sweep' that touches hundreds to thousands of table entries. After every step the returned bytes, the length "
     "min(n, size-pos) and tell() are compared with the model; at teardown a fresh object must return the same bytes for "
-    "sampled ranges. The whole machine runs in separate worker processes with DISSECT_STREAM_BUFFER_SIZE in {512, 4096, "
+    "sampled ranges. The whole machine runs in separate worker processes with DISSECT_STREAM_BUFFER_SIZE in {512, 1536, 4096, "
     "default 8192, 65536} (thorough: + 1024, 1536, 12288, 131072, 1 MiB). Non-trivial = a history with >= 4 data-returning "
     "operations, >= 1 backward seek and >= 1 read touching the last partial buffer or crossing a unit boundary."
 )
@@ -45,7 +45,8 @@ BUFSIZE = int(os.environ.get("DISSECT_STREAM_BUFFER_SIZE") or io.DEFAULT_BUFFER_
 
 
 def variants(tier):
-    sizes = [None, 512, 4096, 65536] if tier == "quick" else [None, 512, 1024, 1536, 4096, 12288, 65536, 131072, 1 << 20]
+    # 1536 = 3 sectors: a buffer size that divides no power-of-two block / cluster / grain size
+    sizes = [None, 512, 1536, 4096, 65536] if tier == "quick" else [None, 512, 1024, 1536, 4096, 12288, 65536, 131072, 1 << 20]
     out = []
     for s in sizes:
         env = {} if s is None else {"DISSECT_STREAM_BUFFER_SIZE": str(s)}
@@ -54,7 +55,7 @@ def variants(tier):
 
 
 def shards(tier):
-    return 4 if tier == "quick" else 2
+    return 3 if tier == "quick" else 2
 
 
 def sequences_per_class(tier):
